@@ -290,9 +290,9 @@ def _step(tr, ev):
             except KeyError:
                 return _res("ok", v=-1)
         return _res("bad")
-    except RecursionError:
-        raise
     except Exception as exc:  # noqa: BLE001 - the exception class *is* the observation
+        # (RecursionError included: a mapper applied to an object whose attribute was
+        # deleted can recurse; the step that allowed the deletion is what gets judged)
         return _res("err", exc=type(exc).__name__)
 
 
@@ -302,6 +302,7 @@ def drive_case(case, extra):
     evs = []
     with warnings.catch_warnings():
         warnings.simplefilter("ignore")
+        _classes()      # an import error of pymbolic is a machinery failure, not an observation
         for ev in case["hist"]:
             r = _step(tr, ev)
             r["proj"] = tr.proj()
